@@ -471,7 +471,7 @@ pub struct ClosureCfg {
 /// Run the closure for a property's monitor set and fold the result into its outcome.
 pub fn run_closure(out: &mut Outcome, monitors: &Monitors, c: &ClosureCfg, also_dfs: bool) {
     let mut profile = Profile::core("closure", 1, 10);
-    profile.prices.truncate(c.prices.max(2));
+    profile.prices.truncate(c.prices.max(1));
     profile.limit_vols = (1..=c.max_vol.min(2)).collect();
     profile.market_vols = vec![1, c.max_vol + 1];
     let mk = || Absx {
@@ -502,7 +502,7 @@ pub fn run_closure(out: &mut Outcome, monitors: &Monitors, c: &ClosureCfg, also_
         c.label, r.unique, r.transitions, r.cut, r.max_depth, r.fails.len(), r.wall_s
     );
     let mut rec = json!({
-        "engine": "absx (stateright BFS closure)", "label": c.label, "caps": {"max_resting_per_side": c.max_rest, "max_volume": c.max_vol, "max_unplaced": 1, "grid_prices": c.prices.max(2)},
+        "engine": "absx (stateright BFS closure)", "label": c.label, "caps": {"max_resting_per_side": c.max_rest, "max_volume": c.max_vol, "max_unplaced": 1, "grid_prices": c.prices.max(1)},
         "actions": {"modify": c.modify, "toggles": c.toggles, "create_place": c.create, "redundant_requests_on_dead_classes": c.redundant, "history_suffix_in_key": if c.suffix_k > 0 { format!("operation classes (placement/cancel/modify/toggle/reload) of the last {} operations", c.suffix_k) } else { "none (live book only)".to_string() }, "snapshot_reload": if c.reload_depth > 0 { format!("an action in every state; states within {} operations after a reload are kept apart and fully expanded", c.reload_depth) } else { "not among the actions".to_string() }, "clock_advance": if c.ties { "{0,+1} before every action; queue ages (clipped) are part of the key" } else { "+1 before every action" }},
         "unique_abstract_states": r.unique, "states_generated": r.generated, "transitions_executed_on_real_code": r.transitions,
         "cut_by_caps": r.cut, "max_depth": r.max_depth, "transitions_on_recently_reloaded_books": r.after_reload, "wall_s": (r.wall_s * 100.0).round() / 100.0,
